@@ -237,7 +237,7 @@ def run_case(case: dict) -> dict:
 
 
 TIERS = {
-    "quick": {"runs": 700, "budget_s": 75, "hashseeds": 4, "shrink_budget": 64, "max_reports": 4},
+    "quick": {"runs": 700, "budget_s": 55, "hashseeds": 4, "shrink_budget": 64, "max_reports": 4},
     "thorough": {"runs": 25000, "budget_s": 900, "hashseeds": 8, "shrink_budget": 400,
                  "max_reports": 8},
 }
